@@ -766,6 +766,9 @@ def _sub_pattern(f, a, c):
         # (m - k) - (x % (m - k))
         if y[0] == "binop" and m == y:
             return "m - (x % m)"
+    # x - (x / m) * m for any m: the remainder
+    if as_remainder(("binop", "Sub", ta, tc)) is not None:
+        return "x - (x / m) * m is x mod m"
     # x - (x / m) * k with k <= m   (and x - (x / k) * k)
     xx = tc
     while xx[0] == "cast":
